@@ -18,7 +18,15 @@ func init() {
 		ID:       "C13",
 		Rule:     "the mixed value corpus of C06 (controller messages, switch messages and records, packets, DHCP, LLDP). For every recipe, fresh values are built and put through every history over {size query, encode} of length 1..4 (30 histories) plus PRNG histories of length 5..12; all size answers must be equal, all encodings byte-equal, across histories too; children's standalone encodings must be the same before and after their container was sized and encoded twice. distinct = hash(mode, recipe without xid); non-trivial = the value has at least one nested element",
 		NumCases: func(tier string, seed uint64) int { return nCases(tier, 24000, 600000) },
-		Gen:      func(tier string, seed uint64, i int) any { return mixedCase(13, tier, seed, i) },
+		Gen: func(tier string, seed uint64, i int) any {
+			if i%16 == 9 { // hand-built packet values with derived fields left unset (still encodable values)
+				r := prng.Derive(seed, 1300, uint64(i))
+				m := pktRecipe(r, i/16)
+				m.Set("_sloppy", uint64(r.U32()))
+				return &c06Case{Mode: "sloppy", Recipe: m}
+			}
+			return mixedCase(13, tier, seed, i)
+		},
 		NewCase:  func() any { return new(c06Case) },
 		Eval:     c13Eval,
 		Minimum: func(a *fw.Agg) error {
@@ -58,6 +66,20 @@ func c13Eval(c *fw.Ctx, data any) {
 	m := cs.Recipe
 	n, _ := countNested(m)
 	c.Distinct(prng.Hash64(append([]byte(cs.Mode), fmt.Sprint(hashNoXid(m))...)), n > 0)
+	if cs.Mode == "sloppy" { // only values that can be encoded at all are in the property's domain
+		probe, _, _ := fw.Recover(func() {
+			v, err := buildValue(cs)
+			if err != nil {
+				panic(err)
+			}
+			v.MarshalBinary()
+		})
+		if probe {
+			c.Count("sloppy_values_not_encodable", 1)
+			return
+		}
+		c.Count("sloppy_values", 1)
+	}
 	r := prng.Derive(c.Seed, 1313, uint64(c.Index))
 	hs := c13Histories(r)
 	refLen := -1
